@@ -1923,6 +1923,43 @@ func (g *dg) emitTwinInterfaces() {
 	}
 }
 
+// emitPromotedMethods adds an embedding chain whose embedded fields are used
+// only as the selection path of promoted methods, reached through a method
+// expression, a method value, a call or an interface conversion (one of each,
+// chosen per package), next to a field that is really unused.
+func (g *dg) emitPromotedMethods() {
+	k := g.rng.IntN(1000)
+	base, mid, outer := fmt.Sprintf("pmBase%d", k), fmt.Sprintf("pmMid%d", k), fmt.Sprintf("pmOuter%d", k)
+	midEmb := dgPick(g, []string{base, "*" + base})
+	outEmb := dgPick(g, []string{mid, "*" + mid})
+	g.add(g.normalFile(), fixed("type "+base+" struct{ n int }", "promoted-base"))
+	g.add(g.normalFile(), fixed("func (b "+base+") get() int { return b.n }", "promoted-method"))
+	g.add(g.normalFile(), fixed("func (b *"+base+") set(v int) { b.n = v }", "promoted-method"))
+	g.add(g.normalFile(), fixed("type "+mid+" struct {\n\t"+midEmb+"\n\tpmDeadMid int\n}", "promoted-mid"))
+	g.add(g.normalFile(), fixed("type "+outer+" struct {\n\t"+outEmb+"\n\tpmDeadOuter string\n}", "promoted-outer"))
+	recv := outer
+	if strings.HasPrefix(midEmb, "*") || strings.HasPrefix(outEmb, "*") || g.p(50) {
+		recv = "*" + outer
+	}
+	paren := recv
+	if strings.HasPrefix(recv, "*") {
+		paren = "(" + recv + ")"
+	}
+	switch g.rng.IntN(5) {
+	case 0: // method expression through the embedded path
+		g.add(g.normalFile(), fixed(fmt.Sprintf("func PmExpr%d(o %s) int {\n\tf := %s.get\n\treturn f(o)\n}", k, recv, paren), "promoted-method-expression"))
+	case 1: // method expression of the pointer-receiver method
+		g.add(g.normalFile(), fixed(fmt.Sprintf("func PmSetExpr%d(o *%s) {\n\tf := (*%s).set\n\tf(o, 1)\n}", k, outer, outer), "promoted-method-expression"))
+	case 2: // method value
+		g.add(g.normalFile(), fixed(fmt.Sprintf("func PmVal%d(o %s) func() int { return o.get }", k, recv), "promoted-method-value"))
+	case 3: // plain call
+		g.add(g.normalFile(), fixed(fmt.Sprintf("func PmCall%d(o *%s) int {\n\to.set(2)\n\treturn o.get()\n}", k, outer), "promoted-call"))
+	default: // only through an interface
+		g.add(g.normalFile(), fixed(fmt.Sprintf("type pmGetter%d interface{ get() int }", k), "promoted-iface"))
+		g.add(g.normalFile(), fixed(fmt.Sprintf("func PmIface%d(o *%s) int {\n\tvar g pmGetter%d = o\n\treturn g.get()\n}", k, outer, k), "promoted-iface-use"))
+	}
+}
+
 func (g *dg) render() []*dgRendered {
 	out := make([]*dgRendered, len(g.files))
 	for fi, fb := range g.files {
@@ -2158,6 +2195,9 @@ func DeclGen(rng *rand.Rand, opt DeclOptions) *DeclPkg {
 	g.emitTests()
 	if g.p(40) {
 		g.emitTwinInterfaces()
+	}
+	if g.p(50) {
+		g.emitPromotedMethods()
 	}
 	// shuffle declaration order inside files (generation order is types-first otherwise)
 	g.rng.Shuffle(len(g.chunks), func(i, j int) { g.chunks[i], g.chunks[j] = g.chunks[j], g.chunks[i] })
